@@ -294,6 +294,38 @@ impl<T> ArcSentJournal<T> {
     }
 }
 
+/// Verification hook (read-only, compiled only with `--cfg gmquic_verif`): canonical dump of the
+/// sent-packet journal. Times are milliseconds since `base`; `f` maps a recorded frame to an integer.
+#[cfg(gmquic_verif)]
+impl<T> ArcSentJournal<T> {
+    pub fn verif_dump(&self, base: Instant, f: impl Fn(&T) -> i128) -> Vec<i128> {
+        let ms = |t: &Instant| t.saturating_duration_since(base).as_millis() as i128;
+        let j = self.0.lock().unwrap();
+        let mut out = vec![
+            j.sent_packets.offset() as i128,
+            j.sent_packets.len() as i128,
+            j.largest_acked_pktno as i128,
+            j.queue.len() as i128,
+        ];
+        out.extend(j.queue.iter().map(&f));
+        for s in j.sent_packets.iter() {
+            match s {
+                SentPktState::Skipped => out.push(0),
+                SentPktState::Flighting { nframes, sent_time, expire_time, retran_time } => {
+                    out.extend([1, *nframes as i128, ms(sent_time), ms(expire_time), ms(retran_time)])
+                }
+                SentPktState::Retransmitted { nframes, sent_time, expire_time } => {
+                    out.extend([2, *nframes as i128, ms(sent_time), ms(expire_time)])
+                }
+                SentPktState::Acked { nframes, sent_time, expire_time } => {
+                    out.extend([3, *nframes as i128, ms(sent_time), ms(expire_time)])
+                }
+            }
+        }
+        out
+    }
+}
+
 /// Handle the peer's ack frame and feed back the frames in the acknowledged or possibly lost packets to other components.
 pub struct SentRotateGuard<'a, T> {
     inner: MutexGuard<'a, SentJournal<T>>,
